@@ -323,3 +323,13 @@ mod test {
         assert!(u0 % (1u128 << 64) != 0); // vanishingly small false positive prob
     }
 }
+
+// Verification hooks (contract-based deductive verification harnesses living
+// outside this repository). Compiled only with `--cfg falcon_rust_verif`;
+// the included file is $FALCON_RUST_VERIF_DIR/hooks/samplerz.rs.
+#[cfg(falcon_rust_verif)]
+#[allow(unused, clippy::all)]
+pub(crate) mod verif {
+    use super::*;
+    include!(concat!(env!("FALCON_RUST_VERIF_DIR"), "/hooks/samplerz.rs"));
+}
